@@ -66,6 +66,11 @@ pub const CARRIERS: &[(&str, usize, usize)] = &[
     ("lazy-unforced", 0, 0),
     ("method-chain", 0, 1),
     ("error-handler", 0, 1),
+    // the effect belongs to an element the consumer only steps over on its way to a later one
+    ("gen-map-get-later", 0, 1),
+    ("gen-map-skip-get", 0, 1),
+    ("gen-map-nth-later", 0, 1),
+    ("gen-map-last", 0, 2),
 ];
 
 #[derive(Clone, Debug)]
@@ -117,6 +122,10 @@ pub fn template(steps: Vec<Step>) -> Template {
             "lazy-unforced" => (format!("range(2).map((v_x: int)->{{ {e} }}).len()"), 2),
             "method-chain" => (format!("({e}).add(0).mul(1)"), kval),
             "error-handler" => (format!("if_error({e}, 0 - 1)"), kval),
+            "gen-map-get-later" => (format!("range(3).to_generator().map((v_x: int)->{{ if(v_x == 0, {e}, 7) }}).get(2)"), 7),
+            "gen-map-skip-get" => (format!("range(3).to_generator().map((v_x: int)->{{ if(v_x == 0, {e}, 7) }}).skip(1).get(0)"), 7),
+            "gen-map-nth-later" => (format!("range(3).to_generator().map((v_x: int)->{{ if(v_x == 0, {e}, 7) }}).nth(1, (v_y: int)->{{ v_y == 7 }}).value()"), 7),
+            "gen-map-last" => (format!("range(2).to_generator().map((v_x: int)->{{ {e} }}).last()"), kval),
             other => panic!("unknown carrier {other}"),
         };
         value += contributes;
